@@ -439,7 +439,7 @@ impl<Traits: ?Sized + Trait, M: MemBuilder> AnyVec<Traits, M>
     /// Calling this method with the incorrect type is undefined behavior.
     #[inline]
     pub unsafe fn downcast_ref_unchecked<T: 'static>(&self) -> AnyVecRef<T, M> {
-        AnyVecRef(AnyVecTyped::new(NonNull::from(&self.raw)))
+        AnyVecRef(AnyVecTyped::new(NonNull::from(&self.raw)), PhantomData)
     }
 
     /// Returns [`AnyVecMut`] - typed view to mut AnyVec,
@@ -525,7 +525,8 @@ impl<Traits: ?Sized + Trait, M: MemBuilder> AnyVec<Traits, M>
             ManuallyDrop::new(ElementPointer::new(
                 AnyVecPtr::from(self),
                 NonNull::new_unchecked(element_ptr)
-            ))
+            )),
+            PhantomData
         )
     }
 
@@ -848,11 +849,22 @@ impl<'a, Traits: ?Sized + Trait, M: MemBuilder> IntoIterator for &'a mut AnyVec<
 ///
 /// [`AnyVec`]: crate::AnyVec
 /// [`AnyVec::downcast_ref`]: crate::AnyVec::downcast_ref
-pub struct AnyVecRef<'a, T: 'static, M: MemBuilder + 'a>(pub(crate) AnyVecTyped<'a, T, M>);
+pub struct AnyVecRef<'a, T: 'static, M: MemBuilder + 'a>(
+    pub(crate) AnyVecTyped<'a, T, M>,
+    // Shared (`&[T]`-like, Clone-able) view: Send + Sync implemented manually below.
+    pub(crate) PhantomData<*const ()>
+);
+// `AnyVecRef` is a shared view - it can cross threads only if `&AnyVecTyped` can.
+unsafe impl<'a, T: 'static, M: MemBuilder + 'a> Send for AnyVecRef<'a, T, M>
+    where AnyVecTyped<'a, T, M>: Sync
+{}
+unsafe impl<'a, T: 'static, M: MemBuilder + 'a> Sync for AnyVecRef<'a, T, M>
+    where AnyVecTyped<'a, T, M>: Sync
+{}
 impl<'a, T: 'static, M: MemBuilder + 'a> Clone for AnyVecRef<'a, T, M>{
     #[inline]
     fn clone(&self) -> Self {
-        Self(self.0.clone())
+        Self(self.0.clone(), PhantomData)
     }
 }
 impl<'a, T: 'static, M: MemBuilder + 'a> Deref for AnyVecRef<'a, T, M>{
